@@ -212,16 +212,17 @@ func (g *Generator) generateService(gf *protogen.GeneratedFile, file *protogen.F
 
 		handlerName := fmt.Sprintf("%sHandler", annotations.LowerFirst(method.GoName))
 		if i == 0 {
-			gf.P("methodHeaders := get", method.GoName, "Headers()")
+			gf.P("methodHeaders := get", serviceName, method.GoName, "Headers()")
 		} else {
-			gf.P("methodHeaders = get", method.GoName, "Headers()")
+			gf.P("methodHeaders = get", serviceName, method.GoName, "Headers()")
 		}
 		gf.P(handlerName, " := BindingMiddleware[", method.Input.GoIdent, "](")
 		gf.P("genericHandler(server.", method.GoName, ", config.errorHandler), serviceHeaders, methodHeaders,")
+		// per-method tables carry the service name: two services of one package may share a method name
 		gf.P(
-			annotations.LowerFirst(method.GoName),
+			annotations.LowerFirst(serviceName), method.GoName,
 			"PathParams, ",
-			annotations.LowerFirst(method.GoName),
+			annotations.LowerFirst(serviceName), method.GoName,
 			"QueryParams,",
 		)
 		gf.P(`"`, httpMethod, `", config.errorHandler,`)
@@ -1467,8 +1468,8 @@ func (g *Generator) generateHeaderGetters(gf *protogen.GeneratedFile, service *p
 
 	// Generate method headers getter functions
 	for _, method := range service.Methods {
-		gf.P("// get", method.GoName, "Headers returns the method-level required headers for ", method.GoName)
-		gf.P("func get", method.GoName, "Headers() []*sebufhttp.Header {")
+		gf.P("// get", service.GoName, method.GoName, "Headers returns the method-level required headers for ", method.GoName)
+		gf.P("func get", service.GoName, method.GoName, "Headers() []*sebufhttp.Header {")
 
 		// Get actual method headers if they exist
 		methodHeaders := annotations.GetMethodHeaders(method)
@@ -1504,7 +1505,7 @@ func (g *Generator) generateHeaderLiteral(gf *protogen.GeneratedFile, header *ht
 // generateParamConfigs generates path and query parameter configurations for each method.
 func (g *Generator) generateParamConfigs(gf *protogen.GeneratedFile, service *protogen.Service) error {
 	for _, method := range service.Methods {
-		methodName := annotations.LowerFirst(method.GoName)
+		methodName := annotations.LowerFirst(service.GoName) + method.GoName
 
 		// Generate path params config
 		pathParams := g.getPathParams(method)
